@@ -37,6 +37,18 @@ CLAIMED = {
         "by a fix: commit (60e20c6, '#1' for every augmented unison). up_down_limit pins that the identity stops at 4 accidentals, "
         "outside the property's domain.",
    design="§4 C03"),
+ "C05": dict(
+   text="Lean theorems: free-tonic classes (Diatonic with any semitone positions, 7 modes, WholeTone, Octatonic) realise their "
+        "pattern for every valid tonic with any accidentals and every octave count (generic loop lemma grow_spec + C02's "
+        "ctor_spec; steps_repeat lifts one octave to n by induction); key-derived classes over their whole tonic tables by "
+        "kernel evaluation, lifted to every octave count; descending = reverse proved structurally, melodic minor / minor "
+        "Neapolitan / Chromatic descending by whole-table evaluation; degree/len/eq follow the lists; determine_spec for "
+        "arbitrary note lists: result = exactly the 105 family scales whose ascending or descending set contains the notes. "
+        "Class order/types, mode tuples and derived-class bodies regenerated from scales.py (Tie A); differential run incl. "
+        "all Diatonic position pairs and recognition on subsets (Tie B).",
+   note=TRUST + "Result order of determine (Python __subclasses__() order) is tied by the correspondence; the oracle compares as a "
+        "multiset. One defect repaired by a fix: commit (16b787e, degree(n,'d') TypeError).",
+   design="§4 C05"),
  "C04": dict(
    text="Whole-table kernel evaluation (decide +kernel) of everything the statement says about each of the 30 keys, the 15 "
         "relative couples, the key objects and signature<->key inversion; unbounded theorems for rejections (any string, any "
